@@ -56,6 +56,9 @@ def table(ctx):
 
 def main(ctx):
     from harness.drivers import gate as G, transport as T
+    if ctx.replay_path:
+        from checks import replay_mine
+        return replay_mine.c06(ctx)
     quick = ctx.tier == 'quick'
     # ---- 1. the gate as a decision table ----
     mc(ctx, 'c06_mc', {}, INVS)
